@@ -137,7 +137,7 @@ func (p *Packet) unpackWithoutCompression(r io.Reader) error {
 	p.ID = int32(PacketID)
 
 	lengthOfData := int(Length) - int(n)
-	if lengthOfData < 0 || lengthOfData > MaxDataLength {
+	if lengthOfData < 0 || Length > MaxDataLength { // the maximum counts the packet id too
 		return fmt.Errorf("uncompressed packet error: length is %d", lengthOfData)
 	}
 	if cap(p.Data) < lengthOfData {
@@ -203,7 +203,7 @@ func (p *Packet) unpackWithCompression(r io.Reader, threshold int) error {
 			return err
 		}
 		DataLength = VarInt(int64(PacketLength) - n2 - n3)
-		if DataLength < 0 {
+		if DataLength < 0 || int64(PacketLength)-n2 > MaxDataLength {
 			return fmt.Errorf("uncompressed packet error: length is %d", DataLength)
 		}
 	}
